@@ -544,3 +544,49 @@ Proof.
   constructor; [|eapply IH; eauto].
   cbn [snd]. unfold blen. rewrite Hpl, N2Nat.id. unfold rd16 in *. lia.
 Qed.
+
+(* ---------- UnregisterProtocol is local to one (protocol, role) ---------- *)
+Lemma reg_find_update r pid ro v pid' :
+  reg_find (reg_update r pid ro v) pid' =
+  if pid' =? pid then option_map (fun e => set_role e ro v) (reg_find r pid') else reg_find r pid'.
+Proof.
+  induction r as [|[p e] t IH]; cbn [reg_update reg_find]; [now destruct (pid' =? pid)|].
+  destruct (N.eqb_spec p pid) as [->|Hne]; cbn [reg_find].
+  - destruct (N.eqb_spec pid pid') as [->|Hne']; [now rewrite N.eqb_refl|].
+    destruct (N.eqb_spec pid' pid); [congruence|reflexivity].
+  - destruct (N.eqb_spec p pid') as [->|Hne'].
+    + destruct (N.eqb_spec pid' pid); [congruence|reflexivity].
+    + exact IH.
+Qed.
+
+Lemma has_role_set_other e ro v ro' : ro' <> ro -> has_role (set_role e ro v) ro' = has_role e ro'.
+Proof. destruct e, ro, ro'; cbn; congruence. Qed.
+
+(* stopping one role of a protocol leaves every other receiver where it was: the sibling
+   role of the same protocol, and all roles of all other protocols *)
+Lemma unregister_other_role_unchanged r pid ro pid' ro' :
+  ro' <> ro \/ (pid' <> pid /\ pid <> proto_unknown) ->
+  route (unregister r pid ro) pid' ro' = route r pid' ro'.
+Proof.
+  intros H. unfold route, unregister. rewrite !reg_find_update.
+  destruct (N.eqb_spec pid' pid) as [->|Hp].
+  - destruct H as [H|[H _]]; [|congruence].
+    destruct (reg_find r pid) as [e|] eqn:Ef; cbn [option_map]; [now rewrite has_role_set_other|].
+    destruct (N.eqb_spec proto_unknown pid) as [E|_]; [|reflexivity].
+    rewrite E, Ef. reflexivity.
+  - destruct (reg_find r pid') as [e|]; [reflexivity|].
+    destruct (N.eqb_spec proto_unknown pid) as [E|_]; [|reflexivity].
+    destruct H as [H|[_ H]]; [|congruence].
+    destruct (reg_find r proto_unknown) as [e|]; cbn [option_map]; [now rewrite has_role_set_other|reflexivity].
+Qed.
+
+Lemma route_seg_unregister r mode pid ro raw :
+  role_of_raw raw <> ro \/ (get_pid raw <> pid /\ pid <> proto_unknown) ->
+  route_seg (unregister r pid ro) mode raw = route_seg r mode raw.
+Proof.
+  intros H. unfold route_seg.
+  destruct ((mode =? dm_initiator) && negb (is_response raw)); [reflexivity|].
+  destruct ((mode =? dm_responder) && is_response raw); [reflexivity|].
+  change (if is_response raw then Initiator else Responder) with (role_of_raw raw).
+  now rewrite unregister_other_role_unchanged.
+Qed.
